@@ -9,6 +9,8 @@ package textwire
 import (
 	"fmt"
 	"os"
+	"regexp"
+	"runtime/debug"
 	"strings"
 	"testing"
 	"time"
@@ -25,7 +27,7 @@ func twvRun(c twvCase) (out string, errText string, panicked string, hung bool) 
 	go func() {
 		defer func() {
 			if r := recover(); r != nil {
-				ch <- res{pan: fmt.Sprint(r)}
+				ch <- res{pan: fmt.Sprint(r) + "\n" + string(debug.Stack())}
 			}
 		}()
 		o, err := EvaluateString(c.tpl, c.data)
@@ -85,7 +87,7 @@ func twvCases() []twvCase {
 	}
 	fns := []string{"len", "split", "raw", "trim", "trimRight", "trimLeft", "upper", "lower", "capitalize", "reverse", "contains", "truncate", "decimal", "at", "first", "last", "repeat",
 		"join", "rand", "slice", "shuffle", "append", "prepend", "int", "str", "abs", "ceil", "floor", "round", "float", "binary", "then", "nope"}
-	args := []string{"", "0", "1", "-1", "-5", "2", "99", `""`, `"."`, `"a"`, "nil", "true", "1, 2", "2, 1", "-1, 5", `".", -1`, `".", 3`, "1, 2, 3", "[1]", "{}"}
+	args := []string{"", "0", "1", "-1", "-5", "2", "99", "9223372036854775807", "4611686018427387904", `".", 9223372036854775807`, `""`, `"."`, `"a"`, "nil", "true", "1, 2", "2, 1", "-1, 5", `".", -1`, `".", 3`, "1, 2, 3", "[1]", "{}"}
 	for _, r := range []string{`"abc"`, `"héllo"`, `""`, "5", "-5", "0", "2.5", "-2.5", "true", "false", "[1, 2, 3]", "[]", `["a", {b: 1}, [1]]`, "nil", "{a: 1}"} {
 		for _, f := range fns {
 			for _, a := range args {
@@ -108,15 +110,45 @@ func twvCases() []twvCase {
 	return cs
 }
 
+// twvFrame: the obligation's function as it appears in a Go stack trace
+// ("evaluator.Evaluator.evalInfix/..." -> evaluator.(*Evaluator).evalInfix), "" when unknown
+func twvFrame(ob string) *regexp.Regexp {
+	fn := ob
+	if i := strings.Index(fn, "/"); i >= 0 {
+		fn = fn[:i]
+	}
+	if i := strings.Index(fn, "$"); i >= 0 {
+		fn = fn[:i]
+	}
+	parts := strings.Split(fn, ".")
+	switch len(parts) {
+	case 2:
+		return regexp.MustCompile(`[/.]` + regexp.QuoteMeta(parts[0]) + `\.` + regexp.QuoteMeta(parts[1]) + `\(`)
+	case 3:
+		return regexp.MustCompile(`[/.]` + regexp.QuoteMeta(parts[0]) + `\.\(?\*?` + regexp.QuoteMeta(parts[1]) + `\)?\.` + regexp.QuoteMeta(parts[2]) + `\(`)
+	}
+	return nil
+}
+
 func TestTwvEvalDriver(t *testing.T) {
 	ob := os.Getenv("TWV_OBLIGATION")
+	frame := twvFrame(ob)
+	if strings.Contains(ob, "well-formed") || strings.Contains(ob, "store-invariant") || strings.Contains(ob, "len(p.errors)") || strings.Contains(ob, "scan:ast-written") {
+		// the parser's well-formedness obligations are the evaluator's precondition: their
+		// violation shows as a crash anywhere in the evaluator
+		frame = nil
+	}
 	wantDet := ob == "" || strings.Contains(ob, "scan:") || strings.Contains(ob, "all")
 	cs := twvCases()
 	for _, c := range cs {
 		out, errText, pan, hung := twvRun(c)
 		if pan != "" {
-			fmt.Printf("TWV-CONFIRMED clause=nopanic input=%q data=%v detail=%s\n", c.tpl, c.data, pan)
-			t.FailNow()
+			// a crash confirms this obligation only when it happens in the obligation's function
+			if ob == "" || frame == nil || frame.MatchString(pan) {
+				fmt.Printf("TWV-CONFIRMED clause=nopanic input=%q data=%v detail=%s\n", c.tpl, c.data, strings.SplitN(pan, "\n", 2)[0])
+				t.FailNow()
+			}
+			continue
 		}
 		if hung {
 			fmt.Printf("TWV-CONFIRMED clause=terminates input=%q detail=no result after 3s\n", c.tpl)
